@@ -105,6 +105,18 @@ CHECKS["C01"] = dict(
     technique="path-sensitive typestate exploration with inlining + reaching-definition and value-range dataflow + structural agreement",
     design="3/C01")
 
+CHECKS["C06"] = dict(
+    text="Decides structural necessary conditions on all paths of all ops of btcp/btls (helpers inlined, set of possible connection "
+         "states tracked) and of tcp/tls: terminal states are never left; whenever an op exits with the state known bad/closed/in-progress "
+         "its result is the documented one (-1 with errno from badness_reason; EPIPE resp. 0; EAGAIN) - this includes the call that "
+         "discovers the condition; every store of a sticky errno is a constant or an errno captured right after the call observed failing "
+         "(errno-source tracking, logging derived transparent); a connect attempt is retried only after its failure reason was recorded; "
+         "the closed state is stored only under the documented conditions; end-of-stream concluded from a failed write is reported "
+         "(known finding K5, four sites). Not decided: which call observes a failure first under real timing; the errno the kernel produces.",
+    note=TRUSTED,
+    technique="state-set abstract interpretation with inlining + errno-source tracking + condition classification",
+    design="3/C06")
+
 NOT_APPLICABLE = {}
 
 
